@@ -58,6 +58,7 @@ def gen_cases(tier, seed):
                 r = random.Random(cs)
                 d = dict(t)
                 d['labels'] = r.choice(gen.LABEL_SCHEMES)
+                d['decoy'] = r.random() < 0.35       # edges / nodes also carry attributes the call does not name ('weight', 'rate'), e.g. a distance read from a file
                 if wm in ('edge', 'both'):
                     d['ew'] = {simcase.TW: [r.choice([0.5, 1.0, 1.7, 2.5]) for _ in d['edges']]}
                 if wm in ('node', 'both'):
@@ -174,6 +175,8 @@ def run_tree(case, res):
         return
     t, S, I, R, Xs, Ys, Zs = out[:7]
     bump(res, 'trees_compared')
+    if case['graph'].get('decoy'):
+        bump(res, 'trees_with_unnamed_attributes')
     bump(res, 'tree_node_curves_compared', 2 * n)
     dpop = max(float(np.max(np.abs(S - exS.sum(axis=0)))), float(np.max(np.abs(I - exI.sum(axis=0)))))
     dnode = max(float(np.max(np.abs(np.asarray(Xs) - exS))), float(np.max(np.abs(np.asarray(Ys) - exI))))
